@@ -16,7 +16,7 @@ BOOL_OPTS = ["retain_names", "retain_coefficients", "sort_graded", "sort_reverse
 OPS = ["construct", "add", "sub_self", "mul", "pow", "derivative", "gradient", "call_num", "call_partial", "call_staged",
        "call_staged_none", "hessian", "divmod", "divmod_quotient", "divmod_remainder", "derivative2", "derivative_positions", "construct_mixed_dtypes", "getitem",
        "align", "pickle", "sum", "concatenate", "where", "astype", "isconstant_tonumpy", "equal", "clean",
-       "call_cancelled_mixed_dtypes", "constant_from_unsorted_terms"]
+       "call_cancelled_mixed_dtypes", "constant_from_unsorted_terms", "construct_unnamed_unused_column"]
 # ordering-based functions: the sort options legitimately decide their result, every OTHER option must not
 ORDER_OPS = ["argmax", "argmin", "amax", "amin", "sortable_proxy", "lead_exponent", "lead_coefficient", "maximum", "greater", "sort_like"]
 
@@ -131,6 +131,9 @@ def run_op(op, a, b, numpoly):
         x = numpoly.variable(2)
         p = 3 * x[0] ** 2 + x[1] - x[1] + (a.ravel()[:1] * 0)[0]
         return p(**{"q0": numpy.array([1, 2, 3]), "q1": 0.5})
+    if op == "construct_unnamed_unused_column":
+        # no names given, a column that no term uses: the indeterminates that remain must keep their number
+        return numpoly.polynomial({(1, 0, 2): 3, (0, 0, 1): 1}) + numpoly.polynomial_from_attributes([(0, 2)], [a.coefficients[0]])
     if op == "constant_from_unsorted_terms":
         # a constant given with its (all-zero) higher terms first: where the constant term is stored must not matter
         c = numpoly.polynomial({(2,): [0, 0], (1,): [0, 0], (0,): [4, 2]})
